@@ -640,20 +640,31 @@ impl Check for C11 {
 
 pub struct C09;
 
-fn true_position(input: &str, o: usize) -> (usize, usize) {
-    let o = o.min(input.len());
-    let before = &input.as_bytes()[..o];
-    let line = 1 + before.iter().filter(|b| **b == b'\n').count();
-    let line_start = before.iter().rposition(|b| *b == b'\n').map(|i| i + 1).unwrap_or(0);
-    (line, o - line_start + 1)
+/// Offsets directly behind each line feed, in ascending order (computed once per input).
+fn line_starts(input: &str) -> Vec<usize> {
+    input
+        .bytes()
+        .enumerate()
+        .filter(|(_, b)| *b == b'\n')
+        .map(|(i, _)| i + 1)
+        .collect()
+}
+
+/// Line and column of a byte offset from the table of line starts of the input.
+fn true_position(starts: &[usize], len: usize, o: usize) -> (usize, usize) {
+    let o = o.min(len);
+    // number of line feeds in input[..o] = number of line starts <= o
+    let k = starts.partition_point(|s| *s <= o);
+    let line_start = if k == 0 { 0 } else { starts[k - 1] };
+    (1 + k, o - line_start + 1)
 }
 
 /// Acceptable positions for an *end* offset / a queried offset: the true one and, directly behind
 /// a line break, also (line of the break, column behind it) (domain rule 10).
-fn acceptable_positions(input: &str, o: usize) -> Vec<(usize, usize)> {
-    let mut v = vec![true_position(input, o)];
+fn acceptable_positions(input: &str, starts: &[usize], o: usize) -> Vec<(usize, usize)> {
+    let mut v = vec![true_position(starts, input.len(), o)];
     if o > 0 && o <= input.len() && input.as_bytes()[o - 1] == b'\n' {
-        let (l, c) = true_position(input, o - 1);
+        let (l, c) = true_position(starts, input.len(), o - 1);
         v.push((l, c + 1));
     }
     v
@@ -714,7 +725,23 @@ impl Check for C09 {
         let model = case.model();
         let max = if thorough { 64 } else { 32 };
         case.inputs = vec![gen_newline_rich_input(d, &model, max)];
-        if d.chance(6) {
+        if d.chance(1) && d.chance(64) {
+            // more than 65 535 lines, or one line longer than 65 535 bytes
+            let mut s = String::new();
+            if d.bool() {
+                for i in 0..66_000 + d.below(2_000) {
+                    s.push(if i % 3 == 0 { 'b' } else { 'a' });
+                    s.push('\n');
+                }
+            } else {
+                s.push_str("ab\n");
+                for _ in 0..66_000 + d.below(2_000) {
+                    s.push(*d.pick(&['a', 'b', ' ']));
+                }
+                s.push_str("\nab ab\n");
+            }
+            case.inputs = vec![s];
+        } else if d.chance(6) {
             // one token spanning many lines (more than 16 / 64 line breaks inside a single token)
             let rx = match d.below(3) {
                 0 => crate::rx::parse_supported(r"[^#]+"),
@@ -805,9 +832,11 @@ impl Check for C09 {
             }
         };
         st.flag("input_with_more_than_16_lines", input.matches('\n').count() > 16);
+        st.flag("input_beyond_65535_bytes", input.len() > 65_535);
         st.flag("driver_find_matches", bare);
         st.flag("driver_with_positions", !bare);
         let len = input.len();
+        let starts = line_starts(input);
         let _ = boundary_offsets(&text);
 
         // the two drivers share the interpretation through a small trait object
@@ -873,7 +902,7 @@ impl Check for C09 {
                                      ep: (usize, usize),
                                      step: usize|
              -> Result<(), Failure> {
-                let es = true_position(input, t.start);
+                let es = true_position(&starts, input.len(), t.start);
                 if sp != es {
                     return Err(Failure::new(
                         "c09.start",
@@ -881,7 +910,7 @@ impl Check for C09 {
                     )
                     .exp_obs(es, sp));
                 }
-                let ee = acceptable_positions(input, t.end);
+                let ee = acceptable_positions(input, &starts, t.end);
                 if !ee.contains(&ep) {
                     return Err(Failure::new(
                         "c09.end",
@@ -962,7 +991,7 @@ impl Check for C09 {
                             oo -= 1;
                         }
                         let got = it.position(oo);
-                        let exp = acceptable_positions(input, oo);
+                        let exp = acceptable_positions(input, &starts, oo);
                         if !exp.contains(&got) {
                             return Err(Failure::new(
                                 "c09.position",
